@@ -30,6 +30,8 @@ fn pin_menu() -> Vec<Pin> {
         Pin::new(PinKind::In, "Bits").bits("3"),
         Pin::new(PinKind::In, "InDefault").default(digxml::Default::Value(7)),
         Pin::new(PinKind::Out, "Label").bits("2"),
+        // an input pin whose own label ends in _out
+        Pin::new(PinKind::In, "B_out").bits("4").default(digxml::Default::Value(2)),
     ]
 }
 
